@@ -41,9 +41,16 @@ def checkXRefStream (w index : List Int) (dataLen : Nat) : Option (Nat × Nat) :
 
 def maxGridCells : Nat := 8 * 1024 * 1024
 
-/-- `parseWorksheet`'s size check: `true` = the grid is allocated -/
-def gridAccepted (maxRow maxCol : Nat) : Bool :=
-  !(maxRow > 0 && maxCol + 1 > maxGridCells / maxRow)
+/-- a grid may have this many cells for every `<c>` element its part brings (344ff0c) -/
+def gridCellsPerElement : Nat := 16
+
+/-- `parseWorksheetPart`'s size check for a fresh part with `elems` cell elements, when
+`used` cells of the workbook's budget are already taken: `true` = the grid is allocated -/
+def gridAcceptedE (used elems maxRow maxCol : Nat) : Bool :=
+  !(maxRow > 0 && maxCol + 1 > (maxGridCells - used + gridCellsPerElement * elems) / maxRow)
+
+/-- the first sheet of a workbook whose part brings one cell (what `c02.grid` writes) -/
+def gridAccepted (maxRow maxCol : Nat) : Bool := gridAcceptedE 0 1 maxRow maxCol
 
 /-! ### page tree traversal with a visited set -/
 
